@@ -27,6 +27,7 @@ func (a assumption) asContext() assumption { a.context = true; return a }
 func pruneBy(p *core.Prog, fn *ssa.Function, as []assumption) (*core.PrunedCFG, map[string][]*ssa.If) {
 	decide := map[*ssa.BasicBlock]int{} // block -> which succ index to keep (+1: 0, -1: 1)
 	hits := map[string][]*ssa.If{}
+	implied := map[string][]*ssa.If{}
 	for _, b := range fn.Blocks {
 		if len(b.Instrs) == 0 {
 			continue
@@ -41,8 +42,17 @@ func pruneBy(p *core.Prog, fn *ssa.Function, as []assumption) (*core.PrunedCFG, 
 				decide[b] = d
 				if d == 1 || d == -1 {
 					hits[a.name] = append(hits[a.name], iff)
+				} else {
+					implied[a.name] = append(implied[a.name], iff)
 				}
 			}
+		}
+	}
+	// a condition that is never tested as such may still be decided by a case
+	// analysis (x > 1 by "case 0, case 1, default"): those tests stand in
+	for _, a := range as {
+		if len(hits[a.name]) == 0 && len(implied[a.name]) > 0 {
+			hits[a.name] = implied[a.name]
 		}
 	}
 	cfg := core.Prune(fn, func(from *ssa.BasicBlock, succ int) bool {
@@ -164,6 +174,45 @@ func immediateAbort(p *core.Prog, r *core.Run, rule, key string, fn *ssa.Functio
 			return
 		}
 	}
+	if n == 0 {
+		// no single test of the condition: it may be decided by a case analysis
+		// (x > 1 by "case 0 ... case 1 ... default"). Under the assumption, from
+		// the first deciding test on, only returns with the sentinel may be
+		// reachable, and control may not come back to a deciding test.
+		cfg, hits := pruneBy(p, fn, []assumption{a})
+		if len(hits[a.name]) > 0 {
+			okAll, rets := true, 0
+			why := ""
+			for _, iff := range hits[a.name] {
+				if !cfg.Live(iff.Block()) {
+					continue
+				}
+				for b := range cfg.ReachableFrom(iff.Block()) {
+					if b != iff.Block() {
+						for _, h := range hits[a.name] {
+							if h.Block() == b && core.CanReach(b, iff.Block()) && cfg.ReachableFrom(b)[iff.Block()] {
+								okAll, why = false, "control can return to the case analysis"
+							}
+						}
+					}
+					if len(b.Instrs) == 0 {
+						continue
+					}
+					ret, ok := b.Instrs[len(b.Instrs)-1].(*ssa.Return)
+					if !ok {
+						continue
+					}
+					rets++
+					got := errorSentinels(p, retErr(ret))
+					if isSuccess(ret) || len(got) != 1 || got[0] != sentinel {
+						okAll, why = false, fmt.Sprintf("the return at %s carries %v", p.InstrPos(ret), got)
+					}
+				}
+			}
+			r.Check(rule, key, okAll && rets > 0, p.InstrPos(hits[a.name][0]), "%q is decided by a case analysis (%d tests); under it only returns carrying %s are reachable (%d returns) %s", a.name, len(hits[a.name]), sentinel, rets, why)
+			return
+		}
+	}
 	r.Check(rule, key, n >= 1, p.Pos(fn.Pos()), "%d branch(es) of %s test %q and each leads only to returns carrying %s", n, p.FuncName(fn), a.name, sentinel)
 }
 
@@ -195,6 +244,9 @@ func cmpAssume(name, op string, l, rr func(*core.Expr) bool) assumption {
 			return 0
 		}
 		try := func(fop string, a, b *core.Expr) int {
+			if d := impliedByRange(op, fop, l, rr, a, b); d != 0 {
+				return d
+			}
 			if op == "==" && l(a) && b.Op == "const" && !rr(b) && (fop == "==" || fop == "!=") {
 				// the assumed x == K decides a test of x against another constant
 				// (the cases of a switch): -2/+2 = decided, but not a test of the
@@ -250,3 +302,69 @@ func isConstName(names ...string) func(*core.Expr) bool {
 }
 
 func fmtKey(format string, a ...any) string { return fmt.Sprintf(format, a...) }
+
+// impliedByRange: the assumed condition "x op K" (K an integer constant named
+// by rr) decides a test "x fop K2" against another integer constant: +2 if
+// every x satisfying the assumption satisfies the test, -2 if none does.
+func impliedByRange(op, fop string, l, rr func(*core.Expr) bool, a, b *core.Expr) int {
+	if !l(a) || b.Op != "const" || rr(b) {
+		return 0
+	}
+	k2, ok := b.ConstInt()
+	if !ok {
+		return 0
+	}
+	// find K: the constant rr accepts, among a few candidates around k2 is not
+	// possible in general; probe integers in a small window
+	var k int64
+	found := false
+	for d := int64(-70000); d <= 70000 && !found; d++ {
+		c := &core.Expr{Op: "const", Name: fmt.Sprint(k2 + d)}
+		if rr(c) {
+			k, found = k2+d, true
+		}
+	}
+	if !found {
+		return 0
+	}
+	const inf = int64(1) << 62
+	rng := func(o string, c int64) (lo, hi int64, ok bool) {
+		switch o {
+		case ">":
+			return c + 1, inf, true
+		case ">=":
+			return c, inf, true
+		case "<":
+			return -inf, c - 1, true
+		case "<=":
+			return -inf, c, true
+		case "==":
+			return c, c, true
+		}
+		return 0, 0, false
+	}
+	alo, ahi, ok := rng(op, k)
+	if !ok {
+		return 0
+	}
+	if fop == "!=" {
+		if k2 < alo || k2 > ahi {
+			return 2
+		}
+		if alo == ahi && alo == k2 {
+			return -2
+		}
+		return 0
+	}
+	tlo, thi, ok := rng(fop, k2)
+	if !ok {
+		return 0
+	}
+	if alo >= tlo && ahi <= thi {
+		return 2
+	}
+	if ahi < tlo || alo > thi {
+		return -2
+	}
+	return 0
+}
